@@ -11,8 +11,8 @@ import (
 // NopMetrics discards everything.
 type NopMetrics struct{}
 
-func (NopMetrics) GetGrpcServerOption() []grpc.ServerOption           { return nil }
-func (NopMetrics) GetHttpHandlers() map[string]http.Handler           { return nil }
+func (NopMetrics) GetGrpcServerOption() []grpc.ServerOption              { return nil }
+func (NopMetrics) GetHttpHandlers() map[string]http.Handler              { return nil }
 func (NopMetrics) EmitCounter(string, interface{}, ...metrics.T) error   { return nil }
 func (NopMetrics) EmitGauge(string, interface{}, ...metrics.T) error     { return nil }
 func (NopMetrics) EmitHistogram(string, interface{}, ...metrics.T) error { return nil }
